@@ -18,6 +18,7 @@ CONSTANTS NKeys,         \* argument tuples 1..NKeys: distinct cache keys althou
           Outs,          \* outcomes the wrapped function may have: subset of {"val", "exc"}
           Steps,         \* clock increments the environment may make in one Advance
           MaxRenew,      \* how often a receiver may be discarded and replaced by a new instance
+          Nested,        \* BOOLEAN: re-entrant calls (the function body calls the same cached function) are explored
           Bug
 
 LRU == INSTANCE CacheLRU
@@ -70,6 +71,37 @@ Call(r, k, o) ==
                /\ obs' = [inv |-> n, fresh |-> TRUE, out |-> o, at |-> now, drain |-> <<>>]
   /\ UNCHANGED <<conf, now, drained, rid, nrid, nren>>
 
+(* RE-ENTRANCY: a call with arguments k whose function body - if it gets invoked - calls the same cached function (same
+   receiver) with other arguments k2 before it returns (memoised recursion); both return values.  Synchronous forms: the
+   inner call is looked up, answered or invoked and stored - and the table trimmed - before the outer result is stored. *)
+Plain(es, n, key) ==
+  IF LRU!Hit(es, key, now, Bug)
+    THEN [es |-> LRU!Touch(es, key, Bug), n |-> n, inv |-> es[LRU!Idx(es, key)].inv, fresh |-> FALSE]
+    ELSE [es |-> LRU!Stored(es, key, n + 1, now, expn, limit, Bug), n |-> n + 1, inv |-> n + 1, fresh |-> TRUE]
+CallNested(r, k, k2) ==
+  /\ Nested /\ ~IsAsync /\ k # k2
+  /\ nops < MaxOps /\ nops' = nops + 1 /\ ~drained
+  /\ r \in Recv
+  /\ LET key == KeyOf(r, k)
+         key2 == KeyOf(r, k2) IN
+     IF LRU!Hit(entries, key, now, Bug)
+       THEN LET i == LRU!Idx(entries, key) IN      \* answered from the cache: the body does not run, nothing is nested
+            /\ uses' = Append(uses, key)
+            /\ entries' = LRU!Touch(entries, key, Bug)
+            /\ obs' = [inv |-> entries[i].inv, fresh |-> FALSE, out |-> invOut[entries[i].inv], at |-> now, drain |-> <<>>]
+            /\ UNCHANGED <<ninv, invKey, invAt, invOut>>
+       ELSE LET n == ninv + 1                                           \* the outer invocation starts first
+                inner == Plain(LRU!Dropped(entries, key), n, key2) IN  \* ... its body calls f(k2)
+            /\ uses' = uses \o <<key2, key>>                          \* (recency: k2 is touched before k is stored)
+            /\ ninv' = inner.n
+            /\ invKey' = IF inner.fresh THEN invKey \o <<key, key2>> ELSE Append(invKey, key)
+            /\ invAt' = IF inner.fresh THEN invAt \o <<now, now>> ELSE Append(invAt, now)
+            /\ invOut' = IF inner.fresh THEN invOut \o <<"val", "val">> ELSE Append(invOut, "val")
+            /\ entries' = LRU!Stored(inner.es, key, n, now, expn, limit, Bug)
+            \* the caller gets the outer invocation's value; `drain` shows which invocation answered the inner call
+            /\ obs' = [inv |-> n, fresh |-> TRUE, out |-> "val", at |-> now, drain |-> <<inner.inv>>]
+  /\ UNCHANGED <<conf, now, drained, rid, nrid, nren>>
+
 (* the instance in receiver slot r is discarded (garbage collected) and a NEW instance takes the slot: whatever the old
    one had cached is not the new one's - its entries linger in the table until evicted, but nothing may serve them *)
 Renew(r) ==
@@ -97,7 +129,8 @@ Drain == /\ ~drained /\ drained' = TRUE
          /\ UNCHANGED <<conf, now, entries, ninv, invKey, invAt, invOut, uses, nops, rid, nrid, nren>>
 
 Next == (\E dt \in Steps : Advance(dt)) \/ Drain \/ (\E r \in Receivers : Renew(r))
-        \/ \E r \in Receivers \cup {0}, k \in Keys, o \in Outs : Call(r, k, o)
+        \/ (\E r \in Receivers \cup {0}, k \in Keys, o \in Outs : Call(r, k, o))
+        \/ (\E r \in Receivers \cup {0}, k \in Keys, k2 \in Keys : CallNested(r, k, k2))
 Spec == Init /\ [][Next]_vars
 
 -----------------------------------------------------------------------------
